@@ -255,3 +255,42 @@ _VER = __import__('re').compile(r'@\d+')
 def show0(term):
     """T.show without the version stamps of attribute reads."""
     return _VER.sub('', T.show(term))
+
+
+def include(ctx, eng, prop, select, why):
+    """Clauses decided by a sibling property's check that are necessary
+    conditions of this property as well: the sibling's rule is run and the
+    selected obligations are recorded under this property (keys carry this
+    property's id).  `select` is a set of rule names, of (rule, function
+    name) pairs, or a predicate over the obligation."""
+    import importlib
+    from ..core import Ctx, AnalysisError
+    guard = getattr(eng, '_including', set())
+    if prop in guard:
+        return 0
+    eng._including = guard | {prop, ctx.prop}
+    try:
+        sub = Ctx(prop, ctx.tier, ctx.seed, eng.m)
+        importlib.import_module('h2verif.rules.%s' % prop.lower()).run(
+            sub, eng)
+    finally:
+        eng._including = guard
+    if callable(select):
+        pred = select
+    else:
+        sel = set(select)
+
+        def pred(o):
+            fn = o.where.split('.')[-1] if isinstance(o.where, str) else ''
+            return o.rule in sel or (o.rule, fn) in sel
+    n = 0
+    for o in sub.obligations:
+        if pred(o):
+            ctx.obligations.append(o)
+            n += 1
+    if n == 0:
+        raise AnalysisError('no clause of %s matched the selection %r'
+                            % (prop, select))
+    ctx.rule('from %s, %d clauses: %s' % (prop, n, why))
+    ctx.count('clauses_shared_with_%s' % prop, n)
+    return n
